@@ -34,3 +34,77 @@ pub fn catch<T>(f: impl FnOnce() -> T + std::panic::UnwindSafe) -> Result<T, Str
 pub fn silence_panics() {
     std::panic::set_hook(Box::new(|_| {}));
 }
+
+use marwood::cell::Cell;
+use marwood::number::Number;
+
+/// Number in the wire form shared with the Lean driver (representation exposed).
+pub fn enc_num(n: &Number) -> String {
+    match n {
+        Number::Fixnum(v) => format!("fix:{}", v),
+        Number::BigInt(v) => format!("big:{}", v),
+        Number::Rational(r) => format!("rat:{}/{}", r.numer(), r.denom()),
+        Number::Float(f) => format!("flo:{:016x}", f.to_bits()),
+    }
+}
+
+/// Datum codec: space-separated prefix tokens (see lean/Driver/Wire.lean).
+pub fn enc_datum(c: &Cell) -> String {
+    let mut out = String::new();
+    enc_datum_into(c, &mut out);
+    out
+}
+
+fn enc_datum_into(c: &Cell, out: &mut String) {
+    match c {
+        Cell::Bool(true) => out.push_str("b1"),
+        Cell::Bool(false) => out.push_str("b0"),
+        Cell::Char(ch) => out.push_str(&format!("c{}", *ch as u32)),
+        Cell::Nil => out.push_str("nil"),
+        Cell::Number(n) => out.push_str(&enc_num(n)),
+        Cell::Pair(a, d) => {
+            // iterative along the cdr spine
+            let mut a = a;
+            let mut d = d;
+            loop {
+                out.push_str("pair ");
+                enc_datum_into(a, out);
+                out.push(' ');
+                match d.as_ref() {
+                    Cell::Pair(na, nd) => {
+                        a = na;
+                        d = nd;
+                    }
+                    other => {
+                        enc_datum_into(other, out);
+                        break;
+                    }
+                }
+            }
+        }
+        Cell::String(s) => {
+            out.push_str("str:");
+            out.push_str(&enc_text(s));
+        }
+        Cell::Symbol(s) => {
+            out.push_str("sym:");
+            out.push_str(&enc_text(s));
+        }
+        Cell::Vector(v) => {
+            out.push_str(&format!("vec{}", v.len()));
+            for x in v {
+                out.push(' ');
+                enc_datum_into(x, out);
+            }
+        }
+        Cell::Continuation => out.push_str("cont"),
+        Cell::Macro => out.push_str("macro"),
+        Cell::Procedure(Some(d)) => {
+            out.push_str("proc:");
+            out.push_str(&enc_text(d));
+        }
+        Cell::Procedure(None) => out.push_str("proc"),
+        Cell::Undefined => out.push_str("undef"),
+        Cell::Void => out.push_str("void"),
+    }
+}
